@@ -410,6 +410,109 @@ example : ∀ t ∈ [RRType.null, RRType.txt, RRType.priv],
 /-- every error code of BadErrors is an admissible error text -/
 example : ∀ e ∈ SA.Gen.C09.badErrors, ErrOk e := by decide
 
+/-! ### non-vacuity of the extension -/
+
+theorem bytes_replicate (n b : Nat) (hb : b < 256) : SA.Bytes (List.replicate n b) := by
+  intro x hx; rw [List.eq_of_mem_replicate hx]; exact hb
+
+theorem respOk_downEnc (d : List Nat) (hd : SA.Bytes d) : RespOk (.downEnc none d) :=
+  ⟨fun e he => (by cases he), hd, fun h => (by simp at h)⟩
+
+theorem enc_downEnc_raw (d : List Nat) : encodeResp raw raw (.downEnc none d) = 121 :: 111 :: d := rfl
+
+/-- NULL and PRIVATE: any number of records up to 65535 (here: every payload length n, ⌈(n+2)/65530⌉ records) -/
+example (n : Nat) (hn : n + 2 ≤ 65535 * 65530) (t : RRType) (ht : t = .null ∨ t = .priv) :
+    roundTrip raw raw t [97, 46, 98] (.downEnc none (List.replicate n 7))
+      = .ok (ceilDiv (n + 2) 65530) (n + 2) (.downEnc none (List.replicate n 7)) := by
+  have hl : (encodeResp raw raw (.downEnc none (List.replicate n 7))).length = n + 2 := by simp [enc_downEnc_raw]
+  have hc : C10_countOk t [97, 46, 98].length (encodeResp raw raw (.downEnc none (List.replicate n 7))).length = true := by
+    rw [hl]
+    rcases ht with rfl | rfl <;>
+    · apply decide_eq_true
+      show (n + 2 + 65530 - 1) / 65530 ≤ 65535
+      omega
+  have := C10_multi_null_priv raw raw raw_good raw_good t ht [97, 46, 98] _
+    (respOk_downEnc _ (bytes_replicate n 7 (by decide))) (by decide)
+    (by rw [enc_downEnc_raw]; exact bytes_cons (by decide) (bytes_cons (by decide) (bytes_replicate n 7 (by decide)))) hc
+  rw [hl] at this
+  exact this
+
+/-- TXT: every payload length up to 512 records, payload made of backslashes (the escaping path) -/
+example (n : Nat) (hn : n + 2 ≤ 512 * 250 * 253) :
+    roundTrip raw raw .txt [97, 46, 98] (.downEnc none (List.replicate n 92))
+      = .ok (ceilDiv (ceilDiv (n + 2) 253) 250) (n + 2) (.downEnc none (List.replicate n 92)) := by
+  have hl : (encodeResp raw raw (.downEnc none (List.replicate n 92))).length = n + 2 := by simp [enc_downEnc_raw]
+  have hc : C10_countOk .txt [97, 46, 98].length (encodeResp raw raw (.downEnc none (List.replicate n 92))).length = true := by
+    rw [hl]
+    apply decide_eq_true
+    show ((n + 2 + 253 - 1) / 253 + 250 - 1) / 250 ≤ 512
+    omega
+  have := C10_multi_txt raw raw raw_good raw_good [97, 46, 98] _
+    (respOk_downEnc _ (bytes_replicate n 92 (by decide))) (by decide)
+    (by rw [enc_downEnc_raw]; exact bytes_cons (by decide) (bytes_cons (by decide) (bytes_replicate n 92 (by decide)))) hc
+  rw [hl] at this
+  exact this
+
+/-- A: every payload of 3k bytes up to 255 records; AAAA: 14k bytes up to 65535 records -/
+example (k : Nat) (hk1 : 1 ≤ k) (hk : k ≤ 255) :
+    roundTrip raw raw .a [97, 46, 98] (.downEnc none (List.replicate (3 * k - 2) 200))
+      = .ok k (3 * k) (.downEnc none (List.replicate (3 * k - 2) 200)) := by
+  have hl : (encodeResp raw raw (.downEnc none (List.replicate (3 * k - 2) 200))).length = 3 * k := by
+    simp [enc_downEnc_raw]; omega
+  have hc : C10_countOk .a [97, 46, 98].length (encodeResp raw raw (.downEnc none (List.replicate (3 * k - 2) 200))).length = true := by
+    rw [hl]
+    apply decide_eq_true
+    show (3 * k + 3 - 1) / 3 ≤ 255
+    omega
+  have := C10_multi_a_aaaa (r := .downEnc none (List.replicate (3 * k - 2) 200)) raw raw raw_good raw_good .a
+    (Or.inl ⟨rfl, by rw [hl]; omega⟩) [97, 46, 98]
+    (respOk_downEnc _ (bytes_replicate _ 200 (by decide))) (by decide)
+    (by rw [enc_downEnc_raw]; exact bytes_cons (by decide) (bytes_cons (by decide) (bytes_replicate _ 200 (by decide)))) hc
+  rw [hl] at this
+  have hcnt : recordCount .a [97, 46, 98].length (3 * k) = k := by
+    show (3 * k + 3 - 1) / 3 = k
+    omega
+  rw [hcnt] at this
+  exact this
+
+theorem domainOk_ab : DomainOk [97, 46, 98] [[97], [98]] := by
+  refine ⟨by decide, ?_, ?_⟩
+  · unfold GoodLabel NoSyntax; decide
+  · unfold PlainLabel; decide
+
+/-- CNAME, MX, SRV: the hypotheses of `C10_no_silent_corruption` / `C10_reassembly` are satisfiable
+    together and the `ok` branch is reached (version reply, bytes 0 and 1 in the payload are `\DDD`
+    on the way back) -/
+example : ∀ t ∈ [RRType.cname, RRType.mx, RRType.srv],
+    roundTrip raw raw t [97, 46, 98] (.version 1 2 none) = .ok 1 8 (.version 1 2 none)
+    ∧ C10_exception t (encodeResp raw raw (.version 1 2 none)) = false
+    ∧ C10_countOk t [97, 46, 98].length (encodeResp raw raw (.version 1 2 none)).length = true := by decide
+
+example : ∀ t ∈ [RRType.cname, RRType.mx, RRType.srv],
+    match roundTrip raw raw t [97, 46, 98] (.version 1 2 none) with
+    | .ok _ _ r' => r' = .version 1 2 none
+    | .panic => False
+    | _ => True := by
+  intro t ht
+  have hr : RespOk (.version 1 2 none) := ⟨by decide, by decide, fun e he => (by cases he)⟩
+  have h : C10_exception t (encodeResp raw raw (.version 1 2 none)) = false
+      ∧ C10_countOk t [97, 46, 98].length (encodeResp raw raw (.version 1 2 none)).length = true := by
+    simp at ht; rcases ht with rfl | rfl | rfl <;> decide
+  exact C10_no_silent_corruption raw raw raw_good raw_good t [97, 46, 98] [[97], [98]] _ hr (by decide) (by decide)
+    h.1 (fun _ => domainOk_ab) h.2
+
+/-- the key lemma is not vacuous: three NULL records arriving in the order 3, 1, 2 -/
+example : unwrap 3 [.null [3, 0, 30], .null [1, 0, 10, 11], .null [2, 0, 20]] = some [10, 11, 20, 30]
+    ∧ Tagged 3 (tagKey .null) 1 [.null [1, 0, 10, 11], .null [2, 0, 20], .null [3, 0, 30]] [[10, 11], [20], [30]] := by
+  refine ⟨by decide, ?_⟩
+  exact Tagged.cons _ _ _ _ _ (by decide) (by decide) (Tagged.cons _ _ _ _ _ (by decide) (by decide)
+    (Tagged.cons _ _ _ _ _ (by decide) (by decide) (Tagged.nil _)))
+
+/-- the tag range is tight: TXT record 513 (order 512) carries the tag of record 1 (order 0);
+    CNAME record 512 sorts before record 1; AAAA record 65536 carries tag 0 -/
+example : tagKey .txt 512 = tagKey .txt 0 ∧ tagKey .cname 512 < tagKey .cname 1
+    ∧ tagKey .aaaa 65536 < tagKey .aaaa 1 ∧ tagKey .mx 6554 < tagKey .mx 1 := by decide
+
 end SA.DnsResp
 
 #print axioms SA.DnsResp.C10_private_registered
